@@ -85,6 +85,11 @@ CALLS: list = []  # (tag, 'apply'|'train') — one entry per actor method invoca
 EXT = 100  # states of the externally committed generation: ('stored', EXT + position)
 
 
+def wrong_count(npers):
+    """Number of states of the commit that must be refused: one too many / one too few, depending on the list."""
+    return npers + 1 if npers % 2 == 0 else npers - 1
+
+
 def _actors():
     from forml import flow
 
@@ -127,6 +132,7 @@ class Built:
         self.nodes = []
         self.segment = None
         self.error = None
+        self.at_segment = False  # the graph was built; `flow.Segment(head, tail)` itself refused it
 
 
 def build(spec) -> Built:
@@ -158,6 +164,7 @@ def build(spec) -> Built:
                 out.nodes[s].train(out.nodes[px][ppx], out.nodes[py][ppy])
         head = out.nodes[spec['head']]
         tail = None if spec.get('tail') is None else out.nodes[spec['tail']]
+        out.at_segment = True
         out.segment = flow.Segment(head, tail)
     except Exception as e:  # pylint: disable=broad-except
         out.error = type(e).__name__
@@ -210,6 +217,21 @@ def export(spec, built: Built):
                 todo.append(j)
     return {'workers': workers, 'edges': edges, 'head': head, 'tail': tail, 'elsewhere': sorted(elsewhere),
             'order': order, 'gids': {v: k for k, v in gid_of.items()}, 'reach': sorted(reach)}
+
+
+def export_raw(spec, built: Built):
+    """All built nodes and their subscriptions with the head and tail of the spec: the argument of `flow.Segment`."""
+    from forml.flow._graph import port as portmod
+
+    idx_of = {id(n): i for i, n in enumerate(built.nodes)}
+    workers, edges = [], []
+    for i, n in enumerate(built.nodes):
+        workers.append([i, spec['nodes'][i]['group'], n.builder.kwargs['tag'], bool(n.stateful), n.szin, n.szout])
+        for pi, subs in enumerate(n.output):
+            for s in subs:
+                kind = 't' if isinstance(s.port, portmod.Train) else 'l' if isinstance(s.port, portmod.Label) else 'a'
+                edges.append([i, pi, idx_of[id(s.node)], kind, int(s.port)])
+    return {'workers': workers, 'edges': edges, 'head': spec['head'], 'tail': spec['tail'], 'elsewhere': []}
 
 
 # --------------------------------------------------------------------------------------------------
@@ -555,13 +577,20 @@ def run_impl(spec):
     out['stage'] = 'done'
     # the same compiled table executed again: on the store the first execution left, then after an external commit
     # through the same accessor (public `State.commit`) replaced the previous generation
+    # …, and a fourth time after a commit from outside with more / fewer states than persistent groups (to be refused)
     out['reruns'] = []
     if assets is not None:
-        for step in (2, 3):
-            if step == 3:
-                assets.commit(tuple(Term('dumped', Term('stored', EXT + i)) for i in range(len(spec['assets']['persistent']))))
-            del rec.loads[:], rec.dumps[:], rec.commits[:], CALLS[:]
+        npers = len(spec['assets']['persistent'])
+        for step in (2, 3, 4):
             r = {}
+            if step in (3, 4):
+                base, cnt = (EXT, npers) if step == 3 else (2 * EXT, wrong_count(npers))
+                r['external'] = {'states': [['stored', base + i] for i in range(cnt)], 'refused': None}
+                try:
+                    assets.commit(tuple(Term('dumped', Term('stored', base + i)) for i in range(cnt)))
+                except Exception as e:  # pylint: disable=broad-except
+                    r['external']['refused'] = type(e).__name__
+            del rec.loads[:], rec.dumps[:], rec.commits[:], CALLS[:]
             try:
                 values, count = execute(symbols, rec)
                 r['values'] = {ids[k]: v for k, v in values.items()}
@@ -701,7 +730,10 @@ def gen_spec(rng, size, *, mode=None, want_assets=None, malformed=False):
             pool = stateful + (['x0', 'x1'] if rng.random() < 0.3 else [])
         k = rng.randint(0, len(pool)) if rng.random() < 0.6 else len(pool)
         pers = rng.sample(pool, k)
-        prev = None if rng.random() < 0.3 else [rng.random() < 0.8 for _ in range(rng.choice([len(pers), len(pers), max(0, len(pers) - 1)]))]
+        # previous generation: none / one state per group / fewer (missing positions load as "no state") / more (ignored)
+        nprev = rng.choice([len(pers), len(pers), len(pers), max(0, len(pers) - 1), max(0, len(pers) - 2), 0, len(pers) + 1,
+                            len(pers) + 2])
+        prev = None if rng.random() < 0.3 else [rng.random() < 0.8 for _ in range(nprev)]
         spec['assets'] = {'persistent': pers, 'prev': prev}
     else:
         spec['assets'] = None
@@ -877,6 +909,85 @@ def enum_small(max_nodes):
             yield dict(spec, assets=a)
 
 
+def enum_trainer_ports(full):
+    """Multi-output stateful groups with one applied and one trained fork: the trainer's feature and label ports fed
+    from every ordered pair of upstream output ports (head with 2..3 outputs, a 1:2 splitter behind it), the applied
+    fork from either end, the tail collecting the group's output ports in every order; previous generation absent /
+    matching / shorter / longer than the persistent list."""
+    for hout in (2, 3):
+        for gout in (1, 2):
+            groups = [{'actor': 0, 'stateful': False}, {'actor': 1, 'stateful': False}, {'actor': 2, 'stateful': True},
+                      {'actor': 3, 'stateful': False}]
+            nodes = [{'group': 0, 'szin': 0, 'szout': hout}, {'group': 1, 'szin': 1, 'szout': 2},
+                     {'group': 2, 'szin': 1, 'szout': gout}, {'group': 2, 'szin': 1, 'szout': gout},
+                     {'group': 3, 'szin': gout, 'szout': 1}]
+            pubs = [(0, i) for i in range(hout)] + [(1, 0), (1, 1)]
+            for x in ((pubs[0], pubs[-1]) if not full else pubs):
+                for (fa, fb) in itertools.product(pubs, repeat=2):
+                    for perm in itertools.permutations(range(gout)):
+                        subs = [['a', 1, 0, 0, hout - 1], ['a', 2, 0, x[0], x[1]], ['t', 3, fa[0], fa[1], fb[0], fb[1]]]
+                        subs += [['a', 4, i, 2, o] for i, o in enumerate(perm)]
+                        variants = [None, {'persistent': [2], 'prev': [True]}, {'persistent': [2], 'prev': []},
+                                    {'persistent': [2], 'prev': [True, True]}]
+                        if full:
+                            # (no foreign gid here: in a training segment the persistent list names trained groups only)
+                            variants += [{'persistent': [2], 'prev': None}, {'persistent': [2], 'prev': [False]}]
+                        for a in variants:
+                            yield {'groups': groups, 'nodes': nodes, 'subs': subs, 'head': 0, 'tail': 4, 'assets': a}
+
+
+CYCLIC = [
+    # head -> tail (subscribed first), head -> X, X <-> Y: `Segment(head, tail)` finds the tail before the cycle
+    {'groups': [{'actor': i, 'stateful': False} for i in range(4)],
+     'nodes': [{'group': 0, 'szin': 0, 'szout': 1}, {'group': 1, 'szin': 1, 'szout': 1}, {'group': 2, 'szin': 2, 'szout': 1},
+               {'group': 3, 'szin': 1, 'szout': 1}],
+     'subs': [['a', 1, 0, 0, 0], ['a', 2, 0, 0, 0], ['a', 3, 0, 2, 0], ['a', 2, 1, 3, 0]], 'head': 0, 'tail': 1, 'assets': None},
+    # the tail publishes back to the head: at the tail only trained subscribers are followed
+    {'groups': [{'actor': i, 'stateful': False} for i in range(2)],
+     'nodes': [{'group': 0, 'szin': 1, 'szout': 1}, {'group': 1, 'szin': 1, 'szout': 1}],
+     'subs': [['a', 1, 0, 0, 0], ['a', 0, 0, 1, 0]], 'head': 0, 'tail': 1, 'assets': None},
+    # a cycle before the tail, reached after it in subscription order; a trainer hanging off the cycle
+    {'groups': [{'actor': 0, 'stateful': False}, {'actor': 1, 'stateful': False}, {'actor': 2, 'stateful': False},
+                {'actor': 3, 'stateful': False}, {'actor': 4, 'stateful': True}],
+     'nodes': [{'group': 0, 'szin': 0, 'szout': 2}, {'group': 1, 'szin': 1, 'szout': 1}, {'group': 2, 'szin': 2, 'szout': 2},
+               {'group': 3, 'szin': 1, 'szout': 1}, {'group': 4, 'szin': 1, 'szout': 1}],
+     'subs': [['a', 1, 0, 0, 0], ['a', 2, 0, 0, 1], ['a', 3, 0, 2, 0], ['a', 2, 1, 3, 0], ['t', 4, 2, 1, 3, 0]],
+     'head': 0, 'tail': 1, 'assets': None},
+]
+
+
+def gen_cyclic(rng, size):
+    """A generated segment with one subscription added that closes a cycle: a further input port of a worker that is
+    alone in its group, fed by a node downstream of it. Whether `flow.Segment` accepts it depends on the order in which
+    its tail search meets the tail and the cycle."""
+    for _ in range(50):
+        spec = gen_spec(rng, size, want_assets=False)
+        nodes, subs = spec['nodes'], spec['subs']
+        down = collections.defaultdict(set)
+        for sub in subs:
+            if sub[0] == 'a':
+                down[sub[3]].add(sub[1])
+        trained = {sub[1] for sub in subs if sub[0] == 't'}
+        alone = [i for i, nd in enumerate(nodes) if sum(1 for m in nodes if m['group'] == nd['group']) == 1
+                 and i not in trained and i != spec['head']]
+        rng.shuffle(alone)
+        for x in alone:
+            reach, todo = set(), [x]
+            while todo:
+                for j in down[todo.pop()]:
+                    if j not in reach:
+                        reach.add(j)
+                        todo.append(j)
+            ys = sorted(j for j in reach if nodes[j]['szout'] > 0 and j not in trained and j != x)
+            if not ys:
+                continue
+            y = rng.choice(ys)
+            nodes = [dict(nd) for nd in nodes]
+            nodes[x]['szin'] += 1
+            return dict(spec, nodes=nodes, subs=subs + [['a', x, nodes[x]['szin'] - 1, y, rng.randrange(nodes[y]['szout'])]])
+    return None
+
+
 # --------------------------------------------------------------------------------------------------
 # the check
 # --------------------------------------------------------------------------------------------------
@@ -895,7 +1006,12 @@ class C01(fw.Check):
             'with no / partial / full previous generation, trainers fed by the tail; plus every segment over a 6-letter shape '
             'alphabet with up to 3 (quick) / 4 (thorough) workers x 3 asset variants and a stride sample of the next size. A case is distinct by (exported graph, assets) and non-trivial when '
             'it has >= 3 workers and compiles. Compared: structural (order-insensitive) symbol tables, values of all '
-            'symbols, execution counts, visit order, commit/dump/load records; oracle = direct graph evaluation.')
+            'symbols, execution counts, visit order, commit/dump/load records; oracle = direct graph evaluation. Round 4: '
+            'previous generations shorter / longer than the persistent list; a family of multi-output stateful groups whose '
+            'trainer takes features and labels from every ordered pair of upstream ports; every compiled table executed four '
+            'times (own commit, external commit, refused external commit of a wrong size); the compiled table itself compared '
+            'as canonical instruction trees of all tasks and the committer; a stream of cyclic flows on which '
+            'flow.Segment acceptance and the traversal alone are compared (mechanism-level data).')
     TRUSTED = [
         'symbolic actors/payloads (provenance terms): the flow layer is assumed payload-agnostic (parametricity, DESIGN 3)',
         'harness interpreter for compiled tables (memoised, dependency ordered) and the fake generation behind the real '
@@ -906,8 +1022,11 @@ class C01(fw.Check):
         'valid segment = acyclic including state edges trainer -> applied forks of its group (D22 shapes are excluded), '
         'every apply port of every non-head member connected, tail without apply subscribers',
         'persistent list: duplicate free, in a training segment a subset of the groups trained in it',
-        'the theorems quantify over every visit order covering the members once (hypothesis order.Perm uids) instead of '
-        'proving that Traversal.each does so; the visited set is compared with the model and with a reachability oracle',
+        'the member list of a segment is data of the model; that it is the set reachable from the head (decidable '
+        '`connected`, proved equivalent to reachability and to visitOrder.Perm uids) is evaluated on every exported case; '
+        'the real visit list is compared with the model and judged by a reachability oracle',
+        'Future nodes and Traversal.tail() without an expected tail are not modelled (segments of Workers, explicit or '
+        'resolved tail)',
         'model and theorems are those of the code with fix C01-F1 (Linkage.leaves accepts an empty linkage)',
         'uuid4 keys never collide',
     ]
@@ -927,12 +1046,60 @@ class C01(fw.Check):
             a = spec.get('assets')
             line = sexp.dumps(['all', seg_sexp(ex), assets_sexp(a, len(spec['groups'])), ex['order'],
                                [[u, r] for u, r in sorted((rank or {}).items())],
-                               [] if a is None else [['stored', EXT + i] for i in range(len(a['persistent']))]])
+                               [] if a is None else [['stored', EXT + i] for i in range(len(a['persistent']))],
+                               [] if a is None else [['stored', 2 * EXT + i] for i in range(wrong_count(len(a['persistent'])))]])
             impls.append((spec, impl))
             lines.append(line)
         answers = self.model(lines)
         for (spec, impl), ans in zip(impls, answers):
             self._compare(spec, impl, sexp.num(sexp.loads(ans)), stream)
+
+    def _cyclic_batch(self, specs):
+        """Cyclic flows are no valid segments (outside the property); what is compared is the traversal alone: the
+        model says `Traversal.each` never raises `Cyclic` and visits what is reachable, once (C01_traversal_never_cyclic,
+        C01_traversal_enumerates). Differences are recorded as mechanism level data and raise no alarm."""
+        lines, kept = [], []
+        raws, rawlines = [], []
+        for spec in specs:
+            built = build(spec)
+            if (built.error is None or built.at_segment) and spec.get('tail') is not None:
+                raws.append(built.error)
+                rawlines.append(sexp.dumps(['construct', seg_sexp(export_raw(spec, built))]))
+            if built.error:
+                self.case(('cyclic-build', repr(spec)), f'cyclic: flow.Segment refused ({built.error})', nontrivial=False)
+                continue
+            try:
+                ex = export(spec, built)
+            except Exception as e:  # pylint: disable=broad-except
+                self.case(('cyclic-each', repr(spec)), f'cyclic: Traversal.each raises {type(e).__name__}', nontrivial=False)
+                self._mech(f'Traversal.each raises {type(e).__name__} on a cyclic flow (model: never)')
+                continue
+            kept.append(ex)
+            lines.append(sexp.dumps(['dfs', seg_sexp(ex)]))
+        # flow.Segment(head, tail): accepted / Cyclic / another TopologyError, as the model of Traversal.tail(expected) says
+        want = {'ok': None, 'cyclic': 'Cyclic', 'simpleHead': 'TopologyError', 'simpleTail': 'TopologyError',
+                'disconnected': 'TopologyError'}
+        done = self.extra.setdefault('segment_constructor_compared', {})
+        for err, ans in zip(raws, self.model(rawlines) if rawlines else []):
+            m = sexp.loads(ans)
+            if m not in want:
+                raise fw.MachineryError(f'model driver rejected a constructor case: {m!r}')
+            done[str(m)] = done.get(str(m), 0) + 1
+            if want[m] != err:
+                self._mech(f'flow.Segment(head, tail): {err or "accepted"} where the model says {m}')
+        for ex, ans in zip(kept, self.model(lines) if lines else []):
+            m = sexp.num(sexp.loads(ans))
+            if not (isinstance(m, list) and len(m) >= 5 and m[0] == 'ok'):
+                raise fw.MachineryError(f'model driver rejected a traversal case: {m!r}')
+            cyc = topo_rank(ex) is None
+            self.case(('cyclic', repr(seg_sexp(ex))), f'cyclic: traversal of a {"cyclic" if cyc else "acyclic"} flow',
+                      nontrivial=cyc and len(ex['workers']) >= 3)
+            if m[2] != ['ok', m[1]]:
+                self.diverge('model: Traversal.each with the Cyclic test differs from the plain search', {'export': ex}, None, m[2])
+            if m[1] != ex['order']:
+                self._mech('cyclic flow: visit ' + ('order' if sorted(m[1]) == sorted(ex['order']) else 'set') + ' differs')
+            if sorted(ex['order']) != ex['reach']:
+                self._mech('cyclic flow: Traversal.each does not visit the reachable set once')
 
     def _mech(self, what):
         """A mechanism-level difference between model and implementation that the property does not talk about."""
@@ -958,9 +1125,10 @@ class C01(fw.Check):
             if mdfs[2] != ['ok', mdfs[1]]:
                 # theorem C01_traversal_never_cyclic: the traversal with the Cyclic test is the plain search
                 self.diverge('model: Traversal.each with the Cyclic test differs from the plain search', witness, None, mdfs[2])
-            if stream == 'valid' and impl.get('rank') is not None and mdfs[3:5] != ['true', 'true']:
-                self.diverge('exported members are not the reachable set by the Lean predicates (connected closed)', witness,
-                             ex['reach'], mdfs[3:5])
+            if stream == 'valid' and impl.get('rank') is not None and mdfs[3:6] != ['true', 'true', 'ok']:
+                self.diverge('exported members are not the reachable set by the Lean predicates (connected closed), or the '
+                             'model of flow.Segment(head, tail) refuses what the real constructor accepted', witness,
+                             ex['reach'], mdfs[3:6])
         elif stream == 'valid':
             raise fw.MachineryError('model driver does not report the traversal flags')
         if stream == 'valid' and sorted(ex['order']) != ex['reach']:
@@ -1093,18 +1261,36 @@ class C01(fw.Check):
         if a is None or not impl.get('reruns'):
             return
         pers = a['persistent']
-        prev1 = prev_values(a.get('prev'))
-        evolved = [c[1] for c in ocommit] if ocommit is not None and all(c is not None for c in ocommit) else prev1
-        stores = [('2nd execution (store left by the 1st)', evolved),
-                  ('3rd execution (after an external commit)', [['stored', EXT + i] for i in range(len(pers))])]
+        labels = ['2nd execution (store left by the 1st)', '3rd execution (after an external commit)',
+                  '4th execution (after a commit from outside with a wrong number of states, to be refused)']
         mruns = mrerun[1:] if isinstance(mrerun, list) else []
-        for n, ((label, prev_vals), r) in enumerate(zip(stores, impl['reruns'])):
+        store = prev_values(a.get('prev'))  # the oracle's account of the previous generation, execution by execution
+        last_commit = ocommit
+        as_modelled = True  # the model: a commit with one state per group is accepted, any other refused
+        for n, r in enumerate(impl['reruns']):
+            label = labels[n]
+            if last_commit is not None and all(c is not None for c in last_commit):
+                store = [c[1] for c in last_commit]  # the table's own commit became the previous generation
+            ext = r.get('external')
+            if ext is not None:
+                fits = len(ext['states']) == len(pers)
+                if ext['refused'] is None:
+                    store = ext['states']
+                if (ext['refused'] is None) != fits:
+                    as_modelled = False
+                    self._mech(f'State.commit from outside: {len(ext["states"])} states for {len(pers)} groups '
+                               f'{"refused" if ext["refused"] else "accepted"}')
             if 'error' in r:
                 self.violate(f'{label}: executing the compiled table raises {r["error"]}', witness, f'rerun-raises-{r["error"]}')
-                continue
-            rvals, rcommit, rcalls = eval_graph(ex, a, prev_vals)
+                break
+            rvals, rcommit, rcalls = eval_graph(ex, a, store)
+            last_commit = rcommit
             self._judge(r, itab, rvals, rcommit, rcalls, a, ex, witness, '-rerun', label + ': ')
+            if not as_modelled:
+                continue
             if n < len(mruns):
+                done = self.extra.setdefault('re_executions_compared_with_model', {})
+                done[label] = done.get(label, 0) + 1
                 mv = {repr(k): v for k, v in mruns[n]}
                 iv = sorted(repr(r['values'][k]) for k, d, _ in itab if d[0] == 'functor')
                 mm = sorted(repr(mv.get(k)) for k, d, _ in mtab if d[0] == 'functor')
@@ -1158,6 +1344,12 @@ class C01(fw.Check):
         self._batch(CORPUS, 'valid')
         self._batch(LONE, 'valid')
         self._batch(MALFORMED, 'malformed')
+        fam = list(enum_trainer_ports(not self.quick))
+        for chunk in range(0, len(fam), 1000):
+            self._batch(fam[chunk:chunk + 1000], 'valid')
+        self.notes.append(f'trainer feature/label port family: {len(fam)} segments')
+        cyc = [c for c in (gen_cyclic(rng, rng.choice([4, 5, 6, 8, 10])) for _ in range(self.n(60, 600))) if c]
+        self._cyclic_batch(CYCLIC + cyc)
         specs = []
         for _ in range(self.n(1500, 15000)):
             hi = 12 if self.quick else 25
@@ -1278,7 +1470,7 @@ class C01(fw.Check):
         return got[0] if got else None
 
 
-_FAKE_ALL = '(all (ok ()) skip (ok () none) (ok () (ok ()) true true) (ok true true) (true true) (reruns))'
+_FAKE_ALL = '(all (ok ()) skip (ok () none) (ok () (ok ()) true true ok) (ok true true) (true true) (reruns))'
 
 
 def _smaller(spec):
